@@ -117,6 +117,8 @@ class World:
     def violate(self, prop, oracle, op, sig, detail, path=None):
         if prop != self.prop:
             return
+        if prop == "C11" and oracle == "twin" and ((sig or {}).get("issue") not in ("value", "codes") or "cause" in (sig or {})):
+            return  # under C11 the twin only serves the freshness clause: numeric disagreements, no known-defect tags
         v = Violation(property=prop, oracle=oracle, op=op, sig=sig or {}, step=list(path or ()), detail=str(detail)[:1500])
         self.res["violations"].append(v)
         self.log.add("violation", prop, oracle, op, sorted((sig or {}).items()))
@@ -426,7 +428,7 @@ class World:
         return O.do_save(self, d, op, p)
 
     def op_load(self, op, p):
-        if op["fid"] not in self.files or op["new"] in self.deps:
+        if op["fid"] not in self.files or (op.get("into") is None and op["new"] in self.deps):
             return "skipped"
         return O.do_load(self, op, p)
 
